@@ -22,6 +22,7 @@ def registry : List Suite := [
   Suites.Loop.mkSuite "lifecycle",
   Suites.Loop.mkSuite "loop-magnet",
   Suites.Loop.mkSuite "private",
+  Suites.Loop.mkSuite "crashpoints",
   Suites.Request.suite,
   Suites.Readpath.suite,
   Suites.WQ.suite,
